@@ -78,6 +78,12 @@ def run_api(ck, programs, tag, in_scope, per_program_timeout=60, extra_classify=
     ck.log("trace validation: %d/%d events consumed, %d events judged by the contract, %d rejection(s)" % (v.consumed, v.total, njudged, len(v.rejections)))
     byx = {p["x"]: p for p in programs}
     lines = open(trace).read().split("\n") if v.rejections else []
+    import bisect
+    resets = [i for i, l_ in enumerate(lines) if l_.startswith('{"e":"Reset"')]
+
+    def reset_before(line):
+        """index of the Reset event that opens the execution containing (1-based) trace line `line`"""
+        return resets[bisect.bisect_right(resets, line - 1) - 1]
     other = []
     sc = C.scratch()
     for (ex, line, why) in v.rejections:
@@ -89,7 +95,7 @@ def run_api(ck, programs, tag, in_scope, per_program_timeout=60, extra_classify=
         cls = classify(prog, evj)
         if extra_classify:
             # the events of this execution up to the rejected one (for classes that depend on what the files hold)
-            st0 = max(i for i in range(line) if '"e":"Reset"' in lines[i])
+            st0 = reset_before(line)
             cls += extra_classify(prog, evj, lines[st0:line])
         descr = {"where": "implementation", "execution": ex, "reason": why, "event_kind": evj.get("e"), "cls": cls,
                  "feat": prog.get("feat", []), "event": lines[line - 1][:500]}
@@ -99,7 +105,7 @@ def run_api(ck, programs, tag, in_scope, per_program_timeout=60, extra_classify=
         pf = os.path.join(sc, "%s_prog_%d.json" % (tag, ex))
         json.dump(prog, open(pf, "w"))
         tf = os.path.join(sc, "%s_trace_%d.ndjson" % (tag, ex))
-        start = max(i for i in range(line) if '"e":"Reset"' in lines[i])
+        start = reset_before(line)
         open(tf, "w").write("\n".join(lines[start:line]) + "\n")
         # one known-finding class at a time: match on each class separately
         matched = False
